@@ -51,7 +51,8 @@ def addpacks(cmdline):
     if cmdline.packages.strip(','):
         packs = cmdline.packages.strip(',') + ',' + packs
     opts = tex2txt.Options(defs=cmdline.define, lang=cmdline.language[:2],
-                                    dcls=cmdline.documentclass, pack=packs)
+                                    dcls=cmdline.documentclass, pack=packs,
+                                    ienc=cmdline.encoding)
     f = tex2txt.myopen(cmdline.add_modules, encoding=cmdline.encoding)
     latex = f.read()
     f.close()
